@@ -14,7 +14,7 @@ func init() {
 		Explanation: "Decided: a reader's registration, its private meta copy and its pin on the mapping (mmaplock read-held) are established atomically under metalock and released on every exit; remap/unmap run only under the exclusive mmaplock and Close takes all three locks; " +
 			"the fields describing the mapping are written only by the map/unmap functions; committed (mapped) memory is never the target of a page/meta/element writer (copy-on-write targets come from the allocator or a fresh buffer); " +
 			"the meta page write happens inside the metalock critical section and pending pages are released only at writer begin, under metalock. " +
-			"NOT decided: equality of the whole view with a model, that the RIGHT pending sets are released (value-level, see C09/C10), goroutine schedules beyond lock-set reasoning. One call path violating this property on the current tree is reported under C08.R4 (known finding). Round 3: the parallel slices txPending.ids/alloctx stay index-aligned (twin writes); a read-only handle takes the shared lock before reading content.",
+			"NOT decided: equality of the whole view with a model, that the RIGHT pending sets are released (value-level, see C09/C10), goroutine schedules beyond lock-set reasoning. One call path violating this property on the current tree is reported under C08.R4 (known finding). Round 3: the parallel slices txPending.ids/alloctx stay index-aligned (twin writes); a read-only handle takes the shared lock before reading content. Round 4: RemoveReadonlyTXID removes exactly one registration (readers are a multiset).",
 		Run: func(c *Ctx) {
 			ruleOneRegistrationRemoved(c, "C02.R14") // a reader stays registered until IT closes
 			rulePendingSlicesAligned(c, "C02.R12") // the reader-extent release decides per page by alloctx[i]
